@@ -307,6 +307,7 @@ TStress ==
 TExpect ==
   /\ More /\ Ev.ev = "Expect"
   /\ l' = l + 1
+  /\ Chk("C15", "WrittenRowsFitTheRegeneratedStruct", Ev.shapeerr = "")
   /\ batches' = IF Ev.rows = <<>> THEN <<>> ELSE <<Ev.rows>>
   /\ UNCHANGED <<caseId, schema, cols, maxPage, codecN, recs, snk, wc, faultK, rowsTab, clean>>
 \* C15: the struct regenerated from a file has the columns, nesting, optionality and types of the struct that wrote it
